@@ -191,6 +191,20 @@ def c17(ctx):
         emp = [(bi, t) for bi, t in vl.calls() if is_callee(t, "std::vec::Vec::<T, A>::is_empty") and any(pp[:1] == ("rest",) for d, pp in origins(vl, t["args"][0]))]
         ok = len(emp) == 1
         rep.ob("C17.R2", "single-element-lists::" + short, ok, "" if ok else "a bare expression list is not folded only when rest is empty", vl.loc(), how="rest.is_empty().then(fold first) else Err(NeedMoreInfo)")
+        # ... and what it folds to is the fold of its only element, unchanged (completeness: a constant is reported whatever its value)
+
+        def m_first(I_, f, st, t, args, depth):
+            yield E(RES, "Ok", ("sym", "v")), None, ((("fold",), "ok"),)
+            yield E(RES, "Err", ("sym", "e")), None, ((("fold",), "err"),)
+        Il = kind.Interp(F, models={"analysis::visit::VisitExpr::visit_expression": m_first})
+        got = set()
+        for o in Il.run(vl, [("sym", "self"), ("sym", "list")]):
+            folded = [tk for c_, tk in o.conds if c_ == ("fold",)]
+            got.add((kt.term(o.ret), folded[0] if folded else "-"))
+        okl = got == {("Ok(v)", "ok"), ("Err(e)", "err"), ("Err(NeedMoreInfo)", "-")} and not Il.incomplete
+        rep.ob("C17.R2", "single-element-list-folds-to-its-element::" + short, okl,
+               "" if okl else "%s::visit_expression_list yields %s; a one-element list must fold to exactly what its element folds to (value or error) and a longer one to NeedMoreInfo -- otherwise some constant right-hand sides are not reported, or reported as something else" % (short, sorted(got)),
+               vl.loc(), how="Ok(v) -> Ok(v), Err(e) -> Err(e), longer -> Err(NeedMoreInfo)")
     vp = find_method(F, VE, "visit_poetic_number_literal", NCF)
     pv = find_method(F, VE, "visit_poetic_number_literal", "exec::produce_val::ProduceVal")
     for who, fn in (("folder", vp), ("interpreter", pv)):
